@@ -31,10 +31,10 @@ func c08Rules(p *Prog) *RuleSet {
 			errNil("di-header-read", "Session.IncompleteVoucherHeader returned no error", named("fdo.DISessionState.IncompleteVoucherHeader"), nil),
 			errNil("di-chain-read", "Session.DeviceCertChain returned no error", named("fdo.DISessionState.DeviceCertChain"), nil),
 			errNil("to0-nonce-read", "Session.TO0SignNonce returned no error", named("fdo.TO0SessionState.TO0SignNonce"), nil),
-			equal("to0-nonce-eq", "decoded TO0 nonce equals the session's", provAnd(decoded, lacksProv("call:fdo.TO0SessionState.TO0SignNonce")), hasProv("call:fdo.TO0SessionState.TO0SignNonce")),
+			equal("to0-nonce-eq", "decoded TO0 nonce equals the session's", provAnd(decodedX, lacksProv("call:fdo.TO0SessionState.TO0SignNonce")), hasProvX("call:fdo.TO0SessionState.TO0SignNonce")),
 			errNil("done-nonce-read", "Session.ProveDeviceNonce returned no error", named("fdo.TO2SessionState.ProveDeviceNonce"), nil),
 			errNil("setup-nonce-read", "Session.SetupDeviceNonce returned no error", named("fdo.TO2SessionState.SetupDeviceNonce"), nil),
-			equal("done-nonce-eq", "decoded Done nonce equals the session's ProveDevice nonce", provAnd(decoded, lacksProv(doneNonce)), provAnd(hasProv(doneNonce), lacksProv("decoded:"))),
+			equal("done-nonce-eq", "decoded Done nonce equals the session's ProveDevice nonce", provAnd(decodedX, lacksProv(doneNonce)), provAnd(hasProvX(doneNonce), lacksProv("decoded:"))),
 			errNil("repl-hmac-read", "Session.ReplacementHmac returned no error (not the credential-reuse case)", named("fdo.TO2SessionState.ReplacementHmac"), nil),
 			errNil("repl-guid-read", "Session.ReplacementGUID returned no error", named("fdo.TO2SessionState.ReplacementGUID"), nil),
 			errNil("rvinfo-read", "Session.RvInfo returned no error", named("fdo.TO2SessionState.RvInfo"), nil),
